@@ -223,9 +223,11 @@ class VarBytesColumn(Column):
 
         def finish(self, doccount):
             dbfile = self._dbfile
+            # Pad first: extending the growable arrays can replace the
+            # underlying array objects (when the type code grows)
+            self.fill(doccount)
             lengths = self._lengths.array
             offsets = self._offsets.array
-            self.fill(doccount)
 
             dbfile.write_array(lengths)
 
